@@ -140,6 +140,40 @@ def write_window_probe(binary=False):
         shutil.rmtree(tmp, ignore_errors=True)
 
 
+def attached_file_probe(image=False):
+    """save_attachment_file / save_image_file of a scratch file that its owner rewrites IN PLACE afterwards (two tests dumping into
+    the same scratch file): the attachment the report references keeps what was attached.  Returns (ok, detail)."""
+    import lemoncheesecake.session as lcc_session
+    from lemoncheesecake.session import Session, _Cursor
+    from lemoncheesecake.events import SyncEventManager
+    from lemoncheesecake.reporting import Report, ReportLocation
+    tmp = tempfile.mkdtemp(prefix="lccverif_file_")
+    try:
+        em = SyncEventManager.load()
+        recorded = []
+        em.subscribe_to_event("log_attachment", lambda e: recorded.append(e.attachment_path))
+        session = Session(em, tmp, Report())
+        Session._instance = session
+        session.cursor = _Cursor(ReportLocation.in_test_session_setup())
+        session.set_step("step")
+        scratch = os.path.join(tmp, "scratch.log")          # same file system as the report directory
+        with open(scratch, "w") as fh:
+            fh.write("output of test a\n")
+        (lcc_session.save_image_file if image else lcc_session.save_attachment_file)(scratch, "by a")
+        with open(scratch, "r+") as fh:                      # rewritten in place: same inode
+            fh.write("OUTPUT OF TEST B, which is longer\n")
+        (lcc_session.save_image_file if image else lcc_session.save_attachment_file)(scratch, "by b")
+        if len(recorded) != 2:
+            return False, "%d attachments recorded instead of 2" % len(recorded)
+        got = [open(os.path.join(tmp, rel)).read() for rel in recorded]
+        if got != ["output of test a\n", "OUTPUT OF TEST B, which is longer\n"]:
+            return False, "attachments %s hold %r after their source file was rewritten" % (recorded, got)
+        return True, recorded
+    finally:
+        Session._instance = None
+        shutil.rmtree(tmp, ignore_errors=True)
+
+
 LATE_SUITE = """import threading
 import lemoncheesecake.api as lcc
 
@@ -225,6 +259,17 @@ def check(run):
         run.count("lock_probes")
         if not ok:
             run.violation("attachment-lock-not-exclusive", str(detail), {"probe": "lock_probe", "detail": str(detail)})
+    for image in (False, True):
+        run.evaluations += 1
+        run.count("attached_file_probes")
+        try:
+            ok, detail = attached_file_probe(image)
+        except Exception as e:      # noqa: BLE001
+            ok, detail = None, "%s: %s" % (type(e).__name__, e)
+        if ok is None:
+            run.tie_broken("the attached-file probe could be run", detail=str(detail))
+        elif not ok:
+            run.violation("attachment-content-changes-with-its-source", str(detail), {"probe": "attached_file_probe", "image": image})
     for binary in (False, True):
         ok, detail = write_window_probe(binary)
         run.evaluations += 1
